@@ -35,10 +35,30 @@ def run(tier, seed, replay):
             cases = [dict(c, id=0)]
         else:
             cases = []
+            # mutable scalars (*big.Int is the only one), objects merged into leading empty objects, state kept in the compiled code (regexp cache)
+            BIG = -(2 ** 72)
+            bigin = [jqgen.V(x) for x in ({"balance": BIG, "history": [BIG, 2 ** 70]}, [BIG], [BIG, -(2 ** 65), 5], BIG, {"a": {"b": BIG}}, [[BIG], {"k": BIG}])]
+            bigprogs = [".balance | abs", ".[]? | (., abs)", "%d | ., abs" % BIG, "abs?", "map(abs)?", "[.[]? | abs?, -(.)?, length?, (. + 1)?, (. * -1)?, (. - 1)?, (. %% 7)?, (. / 2)?, tostring, (floor)?]",
+                        "(.. | numbers) |= abs", ". as $d | [($d | abs?), $d]", "[.. | numbers | abs] | ., add", "$v0 | abs?, .", "[$v0, $v1] | map(abs?)", "(%d - 1) as $d | [($d | abs), $d, ($d | -.)]" % BIG,
+                        "[.[]?] | sort, min, max, unique, (map(abs?) | add?)", ".. |= (numbers | abs)", "[paths(numbers)] as $p | getpath($p[0]) | abs, .", "tojson, (.. | numbers | abs | tojson)", "[limit(3; repeat(.. | numbers | abs))]"]
+            addin = [jqgen.V(x) for x in ([{}, {"a": 1}, {"b": 2}, {"c": 3}], [[], [1], [2]], [{}, {}, {"a": [1]}, {"a": [2]}], {"x": {}, "y": {"a": 1}, "z": {"b": 2}}, [None, {}, {"a": 1}, {"b": 2}], ["", "a", "b"])]
+            addprogs = ["add", "add, .[1]?", "[.[]] | add", "add | length", "map(length), add", "[{}, .[]?] | add", "[{}, {a: 1}, {b: 2}] | (.[1] | length), (add | length)", "reduce .[]? as $o ({}; . + $o)", "add, add",
+                        "[{}, $v0, $v1] | add", ".[1:] | add", "[limit(2; .[]?)] | add", "to_entries? | map(.value) | add", "add?, (.[0] + .[1] + .[2])?", "[.[]? | objects] | add | keys?"]
+            reY = [{"t": "abbb", "f": "gx"}, {"t": "Bb", "f": "xi"}, {"t": "b", "f": "n"}, {"t": "ab", "f": "gs"}]
+            reX = [{"t": "abbb", "f": "g"}, {"t": "Bb", "f": "gi"}, {"t": "b", "f": None}, {"t": "ab", "f": "g"}]
+            reprogs = ['[.[] | .t as $t | .f as $f | try ($t | test("b+"; $f)) catch "err"]', '[.[] | . as {$t, $f} | try [$t | match("b+"; $f).string] catch "err"]', '[.[] | . as {$t, $f} | try ($t | sub("b"; "x"; $f)) catch "err"]',
+                       '[.[] | . as {$t, $f} | try [$t | scan("B"; $f)] catch "err"]', '[.[] | . as {$t, $f} | try ($t | [splits("b"; $f)]) catch "err"]', '[.[] | .t as $t | try ($t | test("(")) catch "bad"]',
+                       '[.[] | . as {$t, $f} | try ($t | capture("(?<x>b+)"; $f)) catch "err"]', '[.[] | .t | test("b"), test("B"; "i"), test("b"; "g")]']
+            special = [(p, i, o) for p in bigprogs for i in bigin for o in [r.choice(bigin)]] + [(p, i, o) for p in addprogs for i in addin for o in [r.choice(addin)]]
+            special += [(p, jqgen.V(a), jqgen.V(b)) for p in reprogs for a, b in ((reY, reX), (reX, reY), (reY, reY))]
+            if quick:
+                special = r.sample(special, min(len(special), 260))
+            for p, i, o in special:
+                cases.append({"id": len(cases), "src": p, "input": i, "other": o, "mode": r.choice(MODES), "vars": [r.choice(bigin + addin), r.choice(bigin + addin)] if "$v" in p else []})
             cor = evalfam.corpus_cases(work, vh)
             for i in range(1200 if quick else 25000):
                 src = jqgen.c05_program(r) if r.randrange(6) else r.choice(cor)["src"]
-                cases.append({"id": i, "src": src, "input": r.choice(uni), "other": r.choice(uni), "mode": r.choice(MODES),
+                cases.append({"id": len(cases), "src": src, "input": r.choice(uni), "other": r.choice(uni), "mode": r.choice(MODES),
                               "vars": [r.choice(uni), r.choice(uni)] if "$v" in src else []})
         recs = vc.run_restartable([vh, "isolate"], cases, work, "iso")
         good = []
